@@ -51,6 +51,8 @@ pub enum Op {
     Refund { by: By, receiver: u8, token: u8, amount: Amt },
     /// the contract's ownership goes to a fresh address (the collector role must not move with it)
     TransferOwnership,
+    /// the owner upgrades the gas service and completes the migration: collector and custody are carried over
+    UpgradeAndMigrate,
 }
 
 #[derive(Clone, Debug, Serialize, Deserialize)]
@@ -77,6 +79,7 @@ fn op() -> impl Strategy<Value = Op> {
         3 => (by(), 0u8..NR as u8, 0u8..NT as u8, amt()).prop_map(|(by, receiver, token, amount)| Op::Collect { by, receiver, token, amount }),
         3 => (by(), 0u8..NR as u8, 0u8..NT as u8, amt()).prop_map(|(by, receiver, token, amount)| Op::Refund { by, receiver, token, amount }),
         1 => Just(Op::TransferOwnership),
+        1 => Just(Op::UpgradeAndMigrate),
     ]
 }
 
@@ -172,9 +175,14 @@ impl Property for C14 {
                 cx.label(if case.single_key { "ownership_moved_away_from_single_key" } else { "ownership_transferred" });
                 continue;
             }
+            if let Op::UpgradeAndMigrate = op {
+                upgrade_and_migrate(&env, &gas.id).map_err(|e| format!("step {}: {}", step, e))?;
+                cx.label("upgrade_and_migration_in_history");
+                continue;
+            }
             let ti = match op {
                 Op::Pay { token, .. } | Op::Add { token, .. } | Op::Collect { token, .. } | Op::Refund { token, .. } => *token as usize % NT,
-                Op::TransferOwnership => unreachable!(),
+                Op::TransferOwnership | Op::UpgradeAndMigrate => unreachable!(),
             };
             let taddr = tokens[ti].clone();
             touched[ti] = true;
@@ -197,7 +205,7 @@ impl Property for C14 {
             match (op, by) {
                 (Op::Pay { .. } | Op::Add { .. }, _) | (_, By::Collector) => env.mock_all_auths(),
                 (_, By::Nobody) => env.mock_auths(&[]),
-                (Op::TransferOwnership, _) => unreachable!(),
+                (Op::TransferOwnership, _) | (Op::UpgradeAndMigrate, _) => unreachable!(),
                 (Op::Collect { receiver, amount, .. }, b) => {
                     let a = resolve(if ti == SLOPPY && *amount == Amt::Max { Amt::BalPlus1 } else { *amount }, held[ti]);
                     let who = if b == By::Stranger { &stranger } else { &owner_now };
@@ -281,7 +289,7 @@ impl Property for C14 {
                         payout = true;
                     }
                 }
-                Op::TransferOwnership => unreachable!(),
+                Op::TransferOwnership | Op::UpgradeAndMigrate => unreachable!(),
                 Op::Refund { by, receiver, amount: a, .. } => {
                     let ri = *receiver as usize % NR;
                     amount = resolve(if ti == SLOPPY && *a == Amt::Max { Amt::BalPlus1 } else { *a }, held[ti]);
